@@ -117,6 +117,7 @@ def special_modules():
         M("SpUnions", "  A ::= INTEGER (MIN..-1 | 1..MAX)\n  B ::= OCTET STRING (SIZE(1 | 3..5))\n  C ::= INTEGER (0..MAX, ...)\n  D ::= INTEGER (MIN..MAX)\n  E ::= INTEGER (1 | 3 | 5, ..., 7)\n"
                       "  F ::= SEQUENCE { a A, b B, c C, d D, e E }\n  U ::= INTEGER\n  T ::= OCTET STRING (CONTAINING U)"),
         M("SpStrDefaultComment", "  T ::= SEQUENCE { a IA5String DEFAULT \"a*/b\", z BOOLEAN }", "AUTOMATIC"),
+        M("SpStrDefaultCLiteral", "  T ::= SEQUENCE { a IA5String DEFAULT \"tail\\\", b IA5String DEFAULT \"a\\b\", c IA5String DEFAULT \"what??/\", z BOOLEAN }", "AUTOMATIC"),
         M("SpStrDefaults", "  T ::= SEQUENCE { a IA5String DEFAULT \"back\\\\slash\", b IA5String DEFAULT \"quote\"\"inside\", c UTF8String DEFAULT \"line1 %s %d\", "
                           "d BIT STRING DEFAULT '0101'B, e OCTET STRING DEFAULT 'FF'H, f REAL DEFAULT 1.5, g SEQUENCE OF INTEGER DEFAULT { 1, 2 }, z BOOLEAN }", "AUTOMATIC"),
         M("SpEnumNegDefault", "  T ::= SEQUENCE { a ENUMERATED { x(-1), y(0) } DEFAULT x, z BOOLEAN }", "AUTOMATIC"),
